@@ -176,7 +176,12 @@ TreeSet_isdisjoint(BTree* self, PyObject* other)
     int contained = 0;
 
     if (other == (PyObject*)self) {
-        if (self->len == 0) {
+        int empty;
+        /* self may be a ghost (its len is then 0 whatever it holds) */
+        PER_USE_OR_RETURN(self, NULL);
+        empty = self->len == 0;
+        PER_UNUSE(self);
+        if (empty) {
             Py_RETURN_TRUE;
         }
         else {
